@@ -209,6 +209,7 @@ package fzf
 //@ property C11
 //@ ensures (r0 == -1 && r1 == -1) || (0 <= r0 && r0 < r1 && r1 <= len(s))
 //@ ensures r0 == -1 ==> forall(k, 0, len(s), dud(s, k))
+//@ ensures r0 >= 0 ==> r1 >= r0 + 2 || ((s[r0] == 14 || s[r0] == 15) && r1 == r0 + 1)
 //@ ensures r0 >= 0 ==> (s[r1-1] == 8 && r1 >= 2 && s[r1-2] != 10 && r1 - r0 <= 5 && forall(k, 0, r1 - 1, dud(s, k))) || ((s[r0] == 14 || s[r0] == 15) && r1 == r0 + 1 && forall(k, 0, r0, dud(s, k))) || (s[r0] == 27 && r0 + 1 < len(s) && s[r0+1] != 10 && forall(k, 0, r0, dud(s, k)))
 //@ ensures r0 >= 0 && s[r0] == 27 && s[r1-1] != 8 && r0 + 2 < len(s) && (s[r0+1] == 92 || s[r0+1] == 91 || s[r0+1] == 40 || s[r0+1] == 41) && mcs(s[r0:], 2) != -1 ==> r1 == r0 + mcs(s[r0:], 2)
 //@ ensures r0 >= 0 && s[r0] == 27 && s[r1-1] != 8 ==> r1 - r0 <= 5 || ((s[r0+1] == 92 || s[r0+1] == 91 || s[r0+1] == 40 || s[r0+1] == 41) && r1 == r0 + mcs(s[r0:], 2)) || (s[r0+1] == 93 && (s[r1-1] == 7 || (s[r1-1] == 92 && s[r1-2] == 27) || s[r1-1] == 27))
@@ -688,9 +689,17 @@ package fzf
 // extractColor strips the escape sequences of a line and records which characters each colour state covers.
 // Offsets count characters of the stripped text: they are ordered, never overlap, and a colour state that is
 // still open at the end of the line extends to the last character.
-// (interpretCode keeps a pointer to one of the colour fields of a local struct across loop iterations: pointers
-//  to scalar fields are outside the memory model, so its contract is assumed)
-//@ func interpretCode trusted
+// interpretCode: the colour state after one escape sequence.  For any sequence the scanner can return (one
+// control byte, or ESC and at least one more byte) it neither
+// indexes nor slices outside the text (hyperlink parameters included); an empty SGR sequence (ESC [ m) resets
+// colours and attributes but keeps the hyperlink and the line background of the previous state.
+//@ func interpretCode
+//@ property C11
+//@ wrap Color int32 -- colour numbers are truncated to 32 bits by the conversion, as in Go
+//@ requires len(ansiCode) >= 1 && (ansiCode[0] == 27 ==> len(ansiCode) >= 2)
+//@ ensures len(ansiCode) == 3 && ansiCode[0] == 27 && ansiCode[1] == 91 && ansiCode[2] == 109 ==> result.fg == -1 && result.bg == -1 && result.attr == 0 && result.url == (prevState == nil ? nil : prevState.url) && result.lbg == (prevState == nil ? -1 : prevState.lbg)
+//@ loop 1
+//@   invariant (ptr == &state.fg || ptr == &state.bg) && 0 <= count
 //@ func ansiState.equals trusted
 //@ func ansiState.colored trusted
 //@ func extractColor
